@@ -55,8 +55,8 @@ func InitGenesis(ctx sdk.Ctx, keeper keeper.Keeper, supplyKeeper types.AuthKeepe
 			// setup the unstaking validator
 			keeper.SetUnstakingValidator(ctx, validator)
 		}
-		// if the validator is staked then add their tokens to the staked pool
-		if validator.IsStaked() {
+		// staked and unstaking validators both keep their tokens in the staked pool
+		if validator.IsStaked() || validator.IsUnstaking() {
 			stakedTokens = stakedTokens.Add(validator.GetTokens())
 		}
 	}
